@@ -47,11 +47,14 @@ Print Assumptions Props.C11.C11_topsort_respects_collected_graph_partial.
 Goal forall things : list ritem, known_C11 things = None ->
     exists dag, build_dag things = Ok dag /\
       forall i a row, nth_error things i = Some a -> nth_error dag i = Some row ->
-        if Proofs.C11Link.is_enum a
-        then (forall b, In b things -> refers a b = false) /\ (row = [] \/ exists rest, row = i :: rest)
-        else forall j b, nth_error things j = Some b -> (In j row <-> refers a b = true).
+        forall j b, nth_error things j = Some b -> (In j row <-> refers a b = true).
 Proof. exact Props.C11.C11_collected_graph_is_reference_graph. Qed.
 Print Assumptions Props.C11.C11_collected_graph_is_reference_graph.
+Goal forall things : list ritem, alias_generic_shadows things = false -> has_dup_names things = false ->
+    exists dag, build_dag things = Ok dag /\
+      forall i row, nth_error dag i = Some row -> ~ In i row.
+Proof. exact Props.C11.C11_collected_rows_irreflexive. Qed.
+Print Assumptions Props.C11.C11_collected_rows_irreflexive.
 Goal forall things : list ritem, known_C11 things = None -> acyclic things = true ->
     exists out, topsort things = Ok out /\ Permutation out things /\ topo_ok out = true.
 Proof. exact Props.C11.C11_topsort_topological. Qed.
@@ -88,12 +91,17 @@ Goal Proofs.C11Link.c11_refutes "C11-duplicate-names"
     [w_struct "A" [] [w_s "X"]; w_struct "X" [] []; w_const "X" (RPrim PU32)].
 Proof. exact Props.C11.C11_duplicate_names_refuted. Qed.
 Print Assumptions Props.C11.C11_duplicate_names_refuted.
-Goal Proofs.C11Link.c11_refutes "C11-variant-fields" [w_enum "E" [VAnon [w_field (w_s "B")] w_vsh]; w_struct "B" [] []].
-Proof. exact Props.C11.C11_variant_fields_refuted. Qed.
-Print Assumptions Props.C11.C11_variant_fields_refuted.
-Goal Proofs.C11Link.c11_refutes "C11-enum-self-edge" [w_enum "E" [VTuple (w_s "B") w_vsh]; w_struct "B" [] []].
-Proof. exact Props.C11.C11_enum_self_edge_refuted. Qed.
-Print Assumptions Props.C11.C11_enum_self_edge_refuted.
+Goal Proofs.C11Link.c11_pinned_ok [w_enum "E" [VAnon [w_field (w_s "B")] w_vsh]; w_struct "B" [] []].
+Proof. exact Props.C11.C11_variant_fields_fixed. Qed.
+Print Assumptions Props.C11.C11_variant_fields_fixed.
+Goal Proofs.C11Link.c11_pinned_ok [w_enum "E" [VTuple (w_s "B") w_vsh]; w_struct "B" [] []].
+Proof. exact Props.C11.C11_enum_self_edge_fixed. Qed.
+Print Assumptions Props.C11.C11_enum_self_edge_fixed.
+Goal Proofs.C11Link.c11_pinned_ok
+    [w_enum "A" [VTuple (w_s "B") w_vsh]; w_enum "B" [VAnon [w_field (RVec (w_s "C"))] w_vsh; VUnit w_vsh];
+     w_struct "C" [] []].
+Proof. exact Props.C11.C11_enum_chain_fixed. Qed.
+Print Assumptions Props.C11.C11_enum_chain_fixed.
 Goal Proofs.C11Link.c11_refutes "C11-generic-arg-depth"
     [w_struct "A" [] [RGeneric (lit "Unknown") [w_s "B"]]; w_struct "B" [] []].
 Proof. exact Props.C11.C11_generic_arg_depth_refuted. Qed.
